@@ -101,7 +101,7 @@ class RealSpline:
 
         kw = {}
         fam = p["fam"]
-        shift = {0: 0.0, 1: -60.0, 2: 60.0}[self.variant]
+        shift = {0: 0.0, 1: -60.0, 2: 60.0, 3: 0.0}[self.variant]
         if fam == "linear":
             kw["unnormalized_pdf"] = rows([math.log(v) + shift for v in p["ws"]])
             return kw
@@ -109,10 +109,15 @@ class RealSpline:
         kw["min_bin_width"] = float(p["mbw"])
         kw["min_bin_height"] = float(p["mbh"])
         if fam == "quadratic":
-            if self.variant and len(set(p["hq"])) == 1:
+            if self.variant == 3:
+                # nearly, but not exactly, equal knot heights (a conditioner whose last layer starts near
+                # zero): the normalised spline is no lattice point any more, only the float32-against-
+                # float64 clauses are evaluated on it
+                kw["unnormalized_heights"] = rows([softplus_inv(float(h) - 1e-3) + 1e-3 * ((k + 1) // 2) * (-1) ** k for k, h in enumerate(p["hq"])])
+            elif self.variant and len(set(p["hq"])) == 1:
                 kw["unnormalized_heights"] = rows([{1: -150.0, 2: -1000.0}[self.variant]] * len(p["hq"]))
             else:
-                lam = {0: 1.0, 1: 1e-2, 2: 1e3}[self.variant]
+                lam = {0: 1.0, 1: 1e-2, 2: 1e3, 3: 1.0}[self.variant]
                 kw["unnormalized_heights"] = rows([softplus_inv(lam * float(h) - 1e-3) if lam * float(h) < 30 else lam * float(h) - 1e-3 for h in p["hq"]])
         elif fam == "cubic":
             kw["unnormalized_heights"] = rows([math.log(v) - shift for v in p["hs"]])
